@@ -48,6 +48,7 @@ func CheckC10(v *View, st Stats) []Violation {
 	freshOK := false // an uncached read confirmed: same UID, not being deleted
 	freshSeen := false
 	adoptedNow := map[string]bool{}
+	createdNow := map[string]bool{} // pods this reconcile created successfully
 	for _, c := range r.Calls {
 		if c.Res == simapi.Sets && c.Verb == "get" && c.Name == v.Set.Name {
 			freshSeen = true
@@ -83,6 +84,9 @@ func CheckC10(v *View, st Stats) []Violation {
 			continue
 		}
 		if c.Verb == "create" {
+			if c.OK() && c.Res == simapi.Pods {
+				createdNow[c.Name] = true
+			}
 			continue
 		}
 		if c.Before == nil {
@@ -91,7 +95,11 @@ func CheckC10(v *View, st Stats) []Violation {
 		st.Inc("ownership_writes_checked")
 		bm, _ := meta.Accessor(c.Before)
 		ctrl := hasCtrl(bm)
-		if cp := cachedPod[c.Name]; c.Res == simapi.Pods && cp != nil {
+		if cp := cachedPod[c.Name]; c.Res == simapi.Pods && cp != nil && createdNow[c.Name] {
+			// the reconcile itself created this pod a moment ago (the cache may still hold a vanished
+			// namesake): it acts on its own object (a Parallel set goes on to the update walk after creating)
+			ctrl = hasCtrl(bm)
+		} else if c.Res == simapi.Pods && cp != nil {
 			// pods are judged by the snapshot the reconcile acted on (its pod cache); the API object
 			// may have changed hands since, which no controller can know without a fresh read
 			ctrl = hasCtrl(cp)
@@ -160,7 +168,7 @@ func CheckC10(v *View, st Stats) []Violation {
 			// owned by this set
 			if c.Res == simapi.Pods {
 				p := cachedPod[c.Name]
-				if p == nil {
+				if p == nil || createdNow[c.Name] {
 					p = c.Before.(*corev1.Pod)
 				}
 				parent, _, _ := refspec.ParsePodName(p.Name)
